@@ -344,6 +344,13 @@ func genC13Events(t *rapid.T, hosts int) []c13Ev {
 			ev.Host = rapid.IntRange(0, hosts-1).Draw(t, "host")
 		}
 		evs = append(evs, ev)
+		if ev.Kind == "failure" && rapid.IntRange(0, 9).Draw(t, "storm") == 0 {
+			// a host that keeps failing: dozens of failures in a row (a dead back-end answering 503 to every retry of
+			// every item), far beyond the point where the penalty and the rate cut stop changing
+			for k := rapid.IntRange(20, 90).Draw(t, "stormlen"); k > 0; k-- {
+				evs = append(evs, ev)
+			}
+		}
 	}
 	return evs
 }
